@@ -7,6 +7,9 @@ baseline = json.load(open('/root/.vp/BASELINE.json'))['cmd'] if os.path.exists('
 SIM = "deterministic simulation with fault injection (seeded schedules over real olric+memberlist+redcon+go-redis in one synctest bubble)"
 NOTE = "Trusts the simulator seams (simnet, simsync, fake clock) and that the mechanical source rewrite preserves olric's semantics; 1 P per run; sampling."
 claimed = {
+ "C12": dict(level="exploration", design="DESIGN.md §8 C12",
+   text="Seeded search: a history of inserts, overwrites, deletes and compaction/idle-table release shapes the tables, then complete iterations through EmbeddedDMap.Scan, ClusterDMap.Scan and raw DM.SCAN cursors per partition (primary and RC) with every COUNT class and MATCH patterns run while writers churn other keys and compaction runs; oracle: termination, every stable key yielded (once by iterators), nothing deleted-before or never-stored yielded, MATCH exact.",
+   note=NOTE, technique=SIM + "; stable-set inclusion/exclusion oracle over concurrent iteration"),
  "C11": dict(level="exploration", design="DESIGN.md §8 C11",
    text="Seeded sequences of storage.Engine calls (Put, PutRaw, Delete, UpdateTTL, compaction steps, table export/import/drop into a second store, clock advances that release idle tables) on a forked kvstore with tiny tables, inside the simulator's fake clock; after every step lookups, Stats().Length, Range and Scan (page sizes, patterns) are compared with a reference map; short sequences over a small alphabet are sampled densely, long ones randomly.",
    note="The store is single-threaded under the fragment lock, so the explored 'schedule' is the order of foreground calls, background steps and clock advances; the engine code is also exercised in-cluster by C01/C03/C12/C20.", technique=SIM + "; reference-map oracle over interleaved foreground/background engine steps"),
